@@ -226,7 +226,7 @@ def rule_factor_unaryremove(P):
     if not sites:
         raise AnalysisError("cfg.py::CFG.unaryremove: no add site")
     for c in sites:
-        num, den = W.factors(c.args[0])
+        num, den = W.cfactors(f.node, c.args[0], c)
         head = norm(c.args[1])
         lv = _loop_vars(c)
         rv = next((v for v, it in lv.items() if it in ("self", "self.rules")), None)
@@ -267,7 +267,7 @@ def rule_factor_epsremove(P):
     for c in _adds(f, names=("add_I",)):
         lv = _loop_vars(c)
         st, wt = norm(c.args[0]), c.args[1]
-        num, den = W.factors(wt)
+        num, den = W.cfactors(f.node, wt, c)
         iv = next((v for v, it in lv.items() if it == "self.I" and v in [norm(x) for x in ast.walk(wt) if isinstance(x, ast.Name)] and f"{sname}[{v}, " in norm(wt)), None)
         wv = [v for v, it in lv.items() if it == "self.I" and v != iv]
         ok = iv is not None and len(wv) == 1 and num == sorted([wv[0], f"{sname}[{iv}, {st}]"]) and not den and lv.get(st) == f"{sname}.outgoing[{iv}]"
@@ -275,7 +275,7 @@ def rule_factor_epsremove(P):
     for c in _adds(f, names=("add_arc",)):
         lv = _loop_vars(c)
         src, lab, tgt, wt = (norm(x) for x in c.args[:4])
-        num, den = W.factors(c.args[3])
+        num, den = W.cfactors(f.node, c.args[3], c)
         arcvars = [v for v, it in lv.items() if it == "self.arcs()"]
         # (i, a, j, w) order
         loop = _loop_of(c, src)
@@ -303,7 +303,7 @@ def rule_factor_link(P):
         c = links[0]
         lv = _loop_vars(c)
         src, tgt = norm(c.args[0]), norm(c.args[2])
-        num, den = W.factors(c.args[3])
+        num, den = W.cfactors(f.node, c.args[3], c)
         lf = _loop_of(c, src)
         li = _loop_of(c, tgt)
         ok = False
@@ -349,18 +349,18 @@ def rule_factor_push(P):
         nm = c.func.attr
         if nm == "add_I":
             s = norm(c.args[0])
-            num, den = W.factors(c.args[1])
-            ok = num == sorted([f"self.start[{s}]", f"{v}[{s}]"]) and not den
+            num, den = W.cfactors(f.node, c.args[1], c)
+            ok = num == sorted([W.ctext(f.node, f"self.start[{s}]", c), W.ctext(f.node, f"{v}[{s}]", c)]) and not den
         elif nm == "add_F":
             s = norm(c.args[0])
-            num, den = W.factors(c.args[1])
-            ok = num == [f"self.stop[{s}]"] and den == [f"{v}[{s}]"]
+            num, den = W.cfactors(f.node, c.args[1], c)
+            ok = num == [W.ctext(f.node, f"self.stop[{s}]", c)] and den == [W.ctext(f.node, f"{v}[{s}]", c)]
         else:
             i, a, j = (norm(x) for x in c.args[:3])
-            num, den = W.factors(c.args[3])
+            num, den = W.cfactors(f.node, c.args[3], c)
             lp = _loop_of(c, j)
             w = norm(lp.target.elts[-1]) if lp is not None and isinstance(lp.target, ast.Tuple) else "?"
-            ok = num == sorted([w, f"{v}[{j}]"]) and den == [f"{v}[{i}]"] and lp is not None and norm(lp.iter) == f"self.arcs({i})"
+            ok = num == sorted([w, W.ctext(f.node, f"{v}[{j}]", c)]) and den == [W.ctext(f.node, f"{v}[{i}]", c)] and lp is not None and norm(lp.iter) == f"self.arcs({i})"
         r.add(f, c, ok, "" if ok else f"`{first_line(c)}`: factors {num} / {den} do not telescope with the potential {v}", slots=dict(num=num, den=den))
     r.min_instances = 3
     return r
@@ -380,12 +380,12 @@ def rule_factor_det(P):
     ok = len(acc) == 1
     if ok:
         lp = _loop_of(acc[0], norm(acc[0].target.slice))
-        num, den = W.factors(acc[0].value)
+        num, den = W.cfactors(pa.node, acc[0].value, acc[0])
         lq = [a for a in ancestors(acc[0]) if isinstance(a, ast.For)]
         names = set()
         for a in lq:
             if isinstance(a.target, ast.Tuple):
-                names.add(norm(a.target.elts[-1]))
+                names.add(W.cnorm(pa.node, a.target.elts[-1], acc[0]))
         ok = len(num) == 2 and set(num) <= names and not den
     r.add(pa, acc[0] if acc else pa.node, ok, "" if ok else "successor weights must accumulate (+=) the product of the subset weight and the arc weight")
     ys = [n for n in walk_live(pa.node) if isinstance(n, ast.Yield)]
@@ -415,7 +415,7 @@ def rule_factor_det(P):
     if ok:
         c = addF[0]
         q = norm(c.args[0])
-        num, den = W.factors(c.args[1])
+        num, den = W.cfactors(f.node, c.args[1], c)
         lp = [a for a in ancestors(c) if isinstance(a, ast.For)]
         inner = norm(lp[0].target) if lp else "?"
         ok = num == sorted([f"{q}[{inner}]", f"self.stop[{inner}]"]) and not den and norm(lp[0].iter) == q
@@ -571,10 +571,11 @@ def rule_factor_cky(P):
         idx = a.target.slice
         if not (isinstance(idx, ast.Tuple) and len(idx.elts) == 3):
             raise AnalysisError("_parse_chart: chart index is not (i, X, k)")
-        i, x, k = (norm(e) for e in idx.elts)
+        raw_i, raw_x, raw_k = (norm(e) for e in idx.elts)
+        i, x, k = (W.cnorm(f.node, e, a) for e in idx.elts)
         cn = norm(a.target.value)
-        num, den = W.factors(a.value)
-        fn, _ = W.factor_nodes(a.value)
+        num, den = W.cfactors(f.node, a.value, a)
+        fn, _ = W.factor_nodes(W.canon_ast(f.node, a.value, a))
         cells = [n for n in fn if isinstance(n, ast.Subscript) and norm(n.value) == cn]
         if len(cells) == 2:
             # binary
@@ -592,16 +593,16 @@ def rule_factor_cky(P):
                 names = [norm(e) for e in ast.walk(t) if isinstance(e, ast.Name)]
                 rv = norm(unpack.value.elts[0]).rsplit(".", 1)[0] if isinstance(unpack.value, ast.Tuple) else "r"
                 if len(names) == 3:
-                    X, Y, Z = names
+                    X, Y, Z = (W.ctext(f.node, nm, a) for nm in names)
                     ok = (i1, j1, i2, j2) == (i, j1, j1, k) and j1 == i2 and x == X and y1 == Y and y2 == Z and f"{rv}.w" in num and len(num) == 3
                     # the split point ranges strictly inside (i, k)
                     lp = _loop_of(a, j1)
-                    ok = ok and lp is not None and norm(lp.iter) == f"range({i} + 1, {k})"
+                    ok = ok and lp is not None and W.cnorm(f.node, lp.iter, lp) == W.ctext(f.node, f"range({raw_i} + 1, {raw_k})", lp)
             r.add(f, a, ok, "" if ok else f"`{first_line(a)}` is not c[i,X,k] += r.w·c[i,Y,j]·c[j,Z,k] with i<j<k", slots=dict(factors=num))
         elif len(cells) == 0 and len(num) == 1 and num[0].endswith(".w"):
             rv = num[0][:-2]
             lp = _loop_of(a, rv)
-            ok = x == f"{rv}.head" and k == f"{i} + 1" and lp is not None and norm(lp.iter).startswith("terminal[") and f"[{i}]" in norm(lp.iter)
+            ok = x == f"{rv}.head" and k == f"{i} + 1" and lp is not None and norm(lp.iter).startswith("terminal[") and f"[{raw_i}]" in norm(lp.iter)
             r.add(f, a, ok, "" if ok else f"`{first_line(a)}` is not the preterminal update c[i, r.head, i+1] += r.w for rules of xs[i]", slots=dict(factors=num))
         else:
             ok = x == "self.S" and i == k and len(num) == 1
